@@ -44,7 +44,9 @@ def mk(rng, tissue, ext, flips, shifts, k, exhaustive=False):
                                                                "shuffle": rng.randrange(1, 10 ** 6)},
                                            "group": {"flips": flips, "shifts": shifts}},
             "build": {"limit": "inf", "fit": rng.choice(["dlite", "taubinSVD"])}, "solve": {"method": "default"},
-            "pressure": True, "require_conditioned": tissue["kind"] == "equilibrium", "exhaustive_part": exhaustive}
+            "pressure": True, "require_conditioned": tissue["kind"] == "equilibrium", "exhaustive_part": exhaustive,
+            # a third of the pairs have interface end segments that are exactly axis aligned (vanishing chord components)
+            "snap_seed": rng.randrange(10 ** 6) if rng.random() < 0.35 else None}
 
 
 def run(ctx):
